@@ -532,6 +532,8 @@ async fn main() {
         finish(w).await;
     }
     out.finish();
+    // leave without tearing down the runtime, the database threads and the room tasks still waiting on their timeouts
+    std::process::exit(0);
 }
 
 fn redate(ev: Ev, shift: i64) -> Ev {
